@@ -11,10 +11,16 @@ cd $wt || exit 2
 git checkout -q -- . ; git clean -fdq
 tests=$(grep -ho '^func Test[A-Za-z0-9_]*' $src/demo_test.go | sed 's/func //' | paste -sd'|')
 cp $src/demo_test.go $pkg/zz_demo_test.go
-go test -vet=off -count=1 -run "^($tests)\$" ./$pkg/ > /tmp/seed-$id-$k-without.txt 2>&1; r0=$?
+demo() { # DEMO_WRAP=cgroup2: run the demo in a private mount namespace with the cgroup v2 hierarchy at /sys/fs/cgroup
+  if [ "${DEMO_WRAP:-}" = cgroup2 ]; then
+    go test -vet=off -c -o /tmp/seed-$id-$k.test ./$pkg/ && unshare -m sh -c "mount --bind /sys/fs/cgroup/unified /sys/fs/cgroup && /tmp/seed-$id-$k.test -test.count=1 -test.run '^($tests)\$'"; r=$?; rm -f /tmp/seed-$id-$k.test; return $r
+  fi
+  go test -vet=off -count=1 -run "^($tests)\$" ./$pkg/
+}
+demo > /tmp/seed-$id-$k-without.txt 2>&1; r0=$?
 git apply $src/patch.diff || { echo "APPLY-FAILED"; git checkout -q -- .; git clean -fdq; exit 2; }
 go build ./... > /tmp/seed-build.txt 2>&1; rb=$?
-go test -vet=off -count=1 -run "^($tests)\$" ./$pkg/ > /tmp/seed-$id-$k-with.txt 2>&1; r1=$?
+demo > /tmp/seed-$id-$k-with.txt 2>&1; r1=$?
 rm $pkg/zz_demo_test.go
 suite=$(go test -vet=off -count=1 ./... 2>&1 | grep -E '^(FAIL|---)' | grep -v 'TestCgroupAll' | grep -v '^FAIL$' | grep -v 'pkg/cgroup' )
 git checkout -q -- . ; git clean -fdq
@@ -30,7 +36,7 @@ notes=open(f'/verif/seeded/{id}-{k}/notes.md').read()
 json.dump({"property":id,"demo":{"file":"demo_test.go","drop_into":pkg,"tests":tests.split('|')},
  "needs_to_manifest":"see notes.md",
  "confirmed":{"demo_passes_without_patch":True,"builds_with_patch":True,"existing_suite_passes_with_patch":True,"demo_fails_with_patch":True,
-   "how":"tools/confirm_seed.sh in scratch worktree /tmp/wt-%s (go1.26.8, offline)"%id},
+   "how":"tools/confirm_seed.sh in scratch worktree /tmp/wt-%s (go1.26.8, offline)%s"%(id, " with DEMO_WRAP=cgroup2 (demo run under unshare -m with /sys/fs/cgroup/unified bind-mounted on /sys/fs/cgroup)" if __import__("os").environ.get("DEMO_WRAP")=="cgroup2" else "")},
  "detected_by":[]}, open(f'/verif/seeded/{id}-{k}/meta.json','w'), indent=1)
 PY
   echo "STORED $d"
